@@ -14,193 +14,163 @@ theorem GoVal.isNil_iff (v : GoVal) : v.isNil = true ↔ v = .nil := by
 theorem GoVal.isNil_false_iff (v : GoVal) : v.isNil = false ↔ v ≠ .nil := by
   cases v <;> simp [GoVal.isNil]
 
-theorem safeFields_lookup : ∀ (kvs : GoFields) (k : Bytes) (x : GoVal),
-    safeFieldsB kvs = true → kvs.lookup k = some x → safeB x = true
+/- ---------- the representation invariant `wfB` ---------- -/
+
+theorem wfFields_lookup (b : Bool) : ∀ (kvs : GoFields) (k : Bytes) (x : GoVal),
+    wfFieldsB b kvs = true → kvs.lookup k = some x → wfB x = true ∧ (b || !x.isNil) = true
   | .nil, _, _, _, h => by simp [GoFields.lookup] at h
   | .cons a w r, k, x, hs, h => by
-    simp only [safeFieldsB, Bool.and_eq_true] at hs
+    simp only [wfFieldsB, Bool.and_eq_true] at hs
     simp only [GoFields.lookup] at h
     split at h
-    · cases h; exact hs.1
-    · exact safeFields_lookup r k x hs.2 h
+    · cases h; exact ⟨hs.1.2, hs.1.1.2⟩
+    · exact wfFields_lookup b r k x hs.2 h
 
-theorem safeFields_set : ∀ (kvs : GoFields) (k : Bytes) (x : GoVal),
-    safeFieldsB kvs = true → safeB x = true → safeFieldsB (kvs.set k x) = true
-  | .nil, k, x, _, hx => by simp [GoFields.set, safeFieldsB, hx]
-  | .cons a w r, k, x, hs, hx => by
-    simp only [safeFieldsB, Bool.and_eq_true] at hs
+theorem wfFields_set (b : Bool) : ∀ (kvs : GoFields) (k : Bytes) (x : GoVal),
+    wfFieldsB b kvs = true → wfB x = true → (b || !x.isNil) = true → wfFieldsB b (kvs.set k x) = true
+  | .nil, k, x, _, hx, hn => by
+    simp only [GoFields.set, wfFieldsB, Bool.and_eq_true]
+    exact ⟨⟨⟨by simp [GoFields.contains, GoFields.lookup], hn⟩, hx⟩, trivial⟩
+  | .cons a w r, k, x, hs, hx, hn => by
+    simp only [wfFieldsB, Bool.and_eq_true] at hs
     simp only [GoFields.set]
     split
-    · simp [safeFieldsB, hx, hs.2]
-    · simp [safeFieldsB, hs.1, safeFields_set r k x hs.2 hx]
+    · rename_i heq
+      simp only [wfFieldsB, Bool.and_eq_true]
+      exact ⟨⟨⟨hs.1.1.1, hn⟩, hx⟩, hs.2⟩
+    · rename_i hne
+      simp only [wfFieldsB, Bool.and_eq_true]
+      refine ⟨⟨⟨?_, hs.1.1.2⟩, hs.1.2⟩, wfFields_set b r k x hs.2 hx hn⟩
+      have h1 := hs.1.1.1
+      simp only [GoFields.contains_set, Bool.not_eq_true', Bool.or_eq_false_iff, decide_eq_false_iff_not]
+      exact ⟨fun e => hne e.symm, by simpa using h1⟩
 
-theorem safeFields_erase : ∀ (kvs : GoFields) (k : Bytes),
-    safeFieldsB kvs = true → safeFieldsB (kvs.erase k) = true
-  | .nil, k, _ => by simp [GoFields.erase, safeFieldsB]
-  | .cons a w r, k, hs => by
-    simp only [safeFieldsB, Bool.and_eq_true] at hs
-    simp only [GoFields.erase]
-    split
-    · exact safeFields_erase r k hs.2
-    · simp [safeFieldsB, hs.1, safeFields_erase r k hs.2]
-
-/-- a slice that may hold null items is at least as safe -/
-theorem safeItems_mono : ∀ (xs : GoVals) (b : Bool), safeItemsB b xs = true → safeItemsB true xs = true
-  | .nil, _, _ => by simp [safeItemsB]
+theorem wfItems_mono : ∀ (xs : GoVals) (b : Bool), wfItemsB b xs = true → wfItemsB true xs = true
+  | .nil, _, _ => by simp [wfItemsB]
   | .cons x r, b, h => by
-    simp only [safeItemsB, Bool.and_eq_true] at h
-    simp [safeItemsB, h.1.2, safeItems_mono r b h.2]
+    simp only [wfItemsB, Bool.and_eq_true] at h
+    simp [wfItemsB, h.1.2, wfItems_mono r b h.2]
+
+theorem wfFields_mono : ∀ (kvs : GoFields) (b : Bool), wfFieldsB b kvs = true → wfFieldsB true kvs = true
+  | .nil, _, _ => by simp [wfFieldsB]
+  | .cons k x r, b, h => by
+    simp only [wfFieldsB, Bool.and_eq_true] at h
+    simp [wfFieldsB, h.1.2, h.1.1.1, wfFields_mono r b h.2]
 
 /-- the element type of a result slice is the original one or `interface{}` -/
 theorem storeElemType_cases (t : GoType) (a b : GoVals) : storeElemType t a b = t ∨ storeElemType t a b = .iface := by
   unfold storeElemType
   split
   · exact Or.inl rfl
-  · split
-    · exact Or.inl rfl
-    · exact Or.inr rfl
+  · exact Or.inr rfl
 
-theorem safeItems_storeElemType {t : GoType} {a b xs : GoVals} (h : safeItemsB (decide (t = .iface)) xs = true) :
-    safeItemsB (decide (storeElemType t a b = .iface)) xs = true := by
+theorem wfItems_storeElemType {t : GoType} {a b xs : GoVals} (h : wfItemsB (decide (t = .iface)) xs = true) :
+    wfItemsB (decide (storeElemType t a b = .iface)) xs = true := by
   rcases storeElemType_cases t a b with e | e
   · rw [e]; exact h
-  · rw [e]; simpa using safeItems_mono xs _ h
-
-mutual
-  theorem jsonLike_safe : (v : GoVal) → jsonLikeB v = true → safeB v = true
-    | .slice e xs, h => by
-      simp only [jsonLikeB, Bool.and_eq_true, decide_eq_true_eq] at h
-      obtain ⟨he, hx⟩ := h
-      subst he
-      simpa [safeB] using jsonLikeItems_safe xs hx
-    | .map e kvs, h => by
-      simp only [jsonLikeB, Bool.and_eq_true, decide_eq_true_eq] at h
-      simp [safeB, h.1, jsonLikeFields_safe kvs h.2]
-    | .nil, _ => rfl
-    | .bool _, _ => rfl
-    | .int _ _, _ => rfl
-    | .uint _ _, _ => rfl
-    | .float _ _, _ => rfl
-    | .jsonNumber _, _ => rfl
-    | .str _, _ => rfl
-  theorem jsonLikeItems_safe : (xs : GoVals) → jsonLikeItemsB xs = true → safeItemsB true xs = true
-    | .nil, _ => rfl
-    | .cons v r, h => by
-      simp only [jsonLikeItemsB, Bool.and_eq_true] at h
-      simp [safeItemsB, jsonLike_safe v h.1, jsonLikeItems_safe r h.2]
-  theorem jsonLikeFields_safe : (kvs : GoFields) → jsonLikeFieldsB kvs = true → safeFieldsB kvs = true
-    | .nil, _ => rfl
-    | .cons _ v r, h => by
-      simp only [jsonLikeFieldsB, Bool.and_eq_true] at h
-      simp [safeFieldsB, jsonLike_safe v h.1, jsonLikeFields_safe r h.2]
-end
+  · rw [e]; simpa using wfItems_mono xs _ h
 
 /-- outcome of a `validateVarType` call on `val` that the totality proof needs: no panic; the
-    results are safe; a non-null value is not turned into the zero Value -/
-def GoodPair (val : GoVal) : Res (GoVal × GoVal) → Prop
+    result is well-formed; a non-null value is not turned into the zero Value -/
+def GoodVal (val : GoVal) : Res GoVal → Prop
   | .panic _ => False
-  | .ok (ret, upd) => safeB ret = true ∧ safeB upd = true ∧ (val ≠ .nil → ret ≠ .nil ∧ upd ≠ .nil)
+  | .ok ret => wfB ret = true ∧ (val ≠ .nil → ret ≠ .nil)
   | _ => True
 
 def GoodItems (nilOK : Bool) : Res GoVals → Prop
   | .panic _ => False
-  | .ok xs => safeItemsB nilOK xs = true
+  | .ok xs => wfItemsB nilOK xs = true
   | _ => True
 
-def GoodFields : Res GoFields → Prop
+def GoodFields : Res (GoType × GoFields) → Prop
   | .panic _ => False
-  | .ok kvs => safeFieldsB kvs = true
+  | .ok (e, kvs) => wfFieldsB (decide (e = .iface)) kvs = true
   | _ => True
 
-theorem storeElem_good {ret upd : GoVal} (h1 : safeB ret = true) (h2 : safeB upd = true) :
-    safeB (storeElem ret upd) = true := by
-  unfold storeElem; split <;> simp_all
+/-- the list loop calls `f` on a null item only when the element type is nullable (the loop itself
+    rejects a null item of an `interface{}` slice at a non-null element type, and a typed slice
+    holds no null item) -/
+theorem listLoop_nil_nullable {b1 b2 : Bool} {x : GoVal} (h1 : (b1 || !x.isNil) = true)
+    (hcond : ¬ (b1 && b2 && x.isNil) = true) : x = .nil → b2 = false := by
+  intro hx
+  subst hx
+  cases b1 <;> cases b2 <;> simp_all [GoVal.isNil]
 
-theorem storeElem_ne_nil {ret upd : GoVal} (h3 : ret ≠ .nil) (h4 : upd ≠ .nil) : storeElem ret upd ≠ .nil := by
-  unfold storeElem; split <;> simp_all
-
-/-- the list loop: `f` is only ever called on a null item when the element type is nullable (the
-    loop itself rejects a null item of an `interface{}` slice at a non-null element type, and a
-    typed slice holds no null item) -/
-theorem listLoop_good (f : Path → GoVal → Res (GoVal × GoVal)) (path : Path) (b1 b2 : Bool)
-    (hf : ∀ p x, safeB x = true → (x = .nil → b2 = false) → GoodPair x (f p x)) :
-    ∀ (xs : GoVals) (i : Nat), safeItemsB b1 xs = true → GoodItems b1 (listLoop f path b1 b2 i xs)
-  | .nil, i, _ => by simp [listLoop, safeItemsB, GoodItems]
+theorem listLoop_good (f : Path → GoVal → Res GoVal) (path : Path) (b1 b2 : Bool)
+    (hf : ∀ p x, wfB x = true → (x = .nil → b2 = false) → GoodVal x (f p x)) :
+    ∀ (xs : GoVals) (i : Nat), wfItemsB b1 xs = true → GoodItems b1 (listLoop f path b1 b2 i xs)
+  | .nil, i, _ => by simp [listLoop, wfItemsB, GoodItems]
   | .cons x rest, i, hs => by
-    simp only [safeItemsB, Bool.and_eq_true, Bool.or_eq_true, Bool.not_eq_true'] at hs
+    simp only [wfItemsB, Bool.and_eq_true] at hs
     obtain ⟨⟨hx1, hx2⟩, hr⟩ := hs
     simp only [listLoop]
     split
     · simp [GoodItems]
     · rename_i hcond
-      have hnn : x = .nil → b2 = false := by
-        intro hx
-        subst hx
-        cases b2
-        · rfl
-        · rcases hx1 with h | h
-          · subst h; simp [GoVal.isNil] at hcond
-          · simp [GoVal.isNil] at h
-      have hg := hf (path ++ [.idx i]) x hx2 hnn
+      have hg := hf (path ++ [.idx i]) x hx2 (listLoop_nil_nullable hx1 hcond)
       cases hfx : f (path ++ [.idx i]) x with
-      | ok pr =>
-        obtain ⟨ret, upd⟩ := pr
-        simp only [hfx, GoodPair] at hg
+      | ok ret =>
+        simp only [hfx, GoodVal] at hg
         have ih := listLoop_good f path b1 b2 hf rest (i + 1) hr
         cases hl : listLoop f path b1 b2 (i + 1) rest with
         | ok rest' =>
           simp only [hl, GoodItems] at ih
-          have hsafe := storeElem_good hg.1 hg.2.1
-          have hnil : b1 = true ∨ (storeElem ret upd).isNil = false := by
-            rcases hx1 with h | h
-            · exact Or.inl h
-            · have := hg.2.2 ((GoVal.isNil_false_iff x).mp h)
-              exact Or.inr ((GoVal.isNil_false_iff _).mpr (storeElem_ne_nil this.1 this.2))
-          simp only [GoodItems, safeItemsB, Bool.and_eq_true, Bool.or_eq_true, Bool.not_eq_true']
-          exact ⟨⟨hnil, hsafe⟩, ih⟩
+          have hnil : (b1 || !ret.isNil) = true := by
+            cases b1
+            · simp only [Bool.false_or, Bool.not_eq_true'] at hx1 ⊢
+              exact (GoVal.isNil_false_iff ret).mpr (hg.2 ((GoVal.isNil_false_iff x).mp hx1))
+            · rfl
+          simp only [GoodItems, wfItemsB, Bool.and_eq_true]
+          exact ⟨⟨hnil, hg.1⟩, ih⟩
         | err m p a => simp [GoodItems]
         | panic m => simp [hl, GoodItems] at ih
         | outOfFuel => simp [GoodItems]
       | err m p a => simp [GoodItems]
-      | panic m => simp [hfx, GoodPair] at hg
+      | panic m => simp [hfx, GoodVal] at hg
       | outOfFuel => simp [GoodItems]
 
-theorem fieldLoop_good (s : Schema) (f : Path → GType → GoVal → Res (GoVal × GoVal)) (path : Path)
-    (hf : ∀ p t x, InputTypeOK s t → safeB x = true → x ≠ .nil → GoodPair x (f p t x)) :
-    ∀ (fields : List FieldDef) (kvs : GoFields), (∀ fd ∈ fields, InputTypeOK s fd.type) → safeFieldsB kvs = true →
-      GoodFields (fieldLoop f path .iface fields kvs)
-  | [], kvs, _, hs => by simp [fieldLoop, hs, GoodFields]
-  | fd :: rest, kvs, ht, hs => by
-    have ih := fun kvs' h' => fieldLoop_good s f path hf rest kvs' (fun fd' h => ht fd' (by simp [h])) h'
+theorem fieldLoop_good (s : Schema) (f : Path → GType → GoVal → Res GoVal) (path : Path)
+    (hf : ∀ p t x, InputTypeOK s t → wfB x = true → x ≠ .nil → GoodVal x (f p t x)) :
+    ∀ (fields : List FieldDef) (elem : GoType) (kvs : GoFields), (∀ fd ∈ fields, InputTypeOK s fd.type) →
+      wfFieldsB (decide (elem = .iface)) kvs = true →
+      GoodFields (fieldLoop f path fields elem kvs)
+  | [], elem, kvs, _, hs => by simp [fieldLoop, hs, GoodFields]
+  | fd :: rest, elem, kvs, ht, hs => by
+    have ih := fun elem' kvs' h' => fieldLoop_good s f path hf rest elem' kvs' (fun fd' h => ht fd' (by simp [h])) h'
     simp only [fieldLoop]
     cases hl : kvs.lookup fd.name with
     | none =>
       simp only []
-      split <;> (try split) <;> (try split) <;> first | exact ih kvs hs | simp [GoodFields]
+      split <;> (try split) <;> (try split) <;> first | exact ih elem kvs hs | simp [GoodFields]
     | some x =>
       simp only []
-      have hx := safeFields_lookup kvs fd.name x hs hl
-      by_cases hn : x.isNil = true
-      · simp only [hn, Bool.and_true, decide_true, if_true]
+      obtain ⟨hx, hxn⟩ := wfFields_lookup _ kvs fd.name x hs hl
+      by_cases hn : (decide (elem = .iface) && x.isNil) = true
+      · simp only [hn, if_true]
         split
         · simp [GoodFields]
-        · exact ih kvs hs
-      · have hn' : x.isNil = false := by simpa using hn
-        simp only [hn', Bool.and_false, Bool.false_eq_true, if_false]
-        have hxne : x ≠ .nil := (GoVal.isNil_false_iff x).mp hn'
+        · exact ih elem kvs hs
+      · simp only [hn, Bool.false_eq_true, if_false]
+        have hxne : x ≠ .nil := by
+          intro e; subst e
+          cases h : decide (elem = .iface) <;> simp_all [GoVal.isNil]
         have hg := hf (path ++ [.name fd.name]) fd.type x (ht fd (by simp)) hx hxne
         cases hfx : f (path ++ [.name fd.name]) fd.type x with
-        | ok pr =>
-          obtain ⟨cval, upd⟩ := pr
-          simp only [hfx, GoodPair] at hg
+        | ok cval =>
+          simp only [hfx, GoodVal] at hg
           simp only []
           cases hty : cval.type? with
-          | none => exact absurd ((GoVal.type?_none_iff cval).mp hty) (hg.2.2 hxne).1
+          | none => exact absurd ((GoVal.type?_none_iff cval).mp hty) (hg.2 hxne)
           | some t =>
-            simp only [assignable, decide_true, Bool.true_or, if_true]
-            exact ih _ (safeFields_set kvs fd.name cval hs hg.1)
+            simp only []
+            have hcn : cval.isNil = false := (GoVal.isNil_false_iff cval).mpr (hg.2 hxne)
+            apply ih
+            apply wfFields_set _ kvs fd.name cval _ hg.1 (by simp [hcn])
+            split
+            · exact hs
+            · simpa using wfFields_mono kvs _ hs
         | err m p a => simp [GoodFields]
-        | panic m => simp [hfx, GoodPair] at hg
+        | panic m => simp [hfx, GoodVal] at hg
         | outOfFuel => simp [GoodFields]
 
 end Gql
@@ -208,67 +178,64 @@ end Gql
 namespace Gql
 open Gql.Strconv
 
-theorem GoodPair_self {v : GoVal} (h1 : safeB v = true) : GoodPair v (.ok (v, v)) := by
-  simp [GoodPair, h1]
+theorem GoodVal_self {v : GoVal} (h1 : wfB v = true) : GoodVal v (.ok v) := by
+  simp [GoodVal, h1]
 
-/-- `validateVarType` does not panic on a safe value, PROVIDED a null value only meets a nullable
-    type — which every caller (the loop of `VariableValues`, the list loop, the field loop)
-    establishes before the call -/
+/-- `validateVarType` does not panic on a well-formed value (typed slices and typed maps
+    included), PROVIDED a null value only meets a nullable type — which every caller (the loop of
+    `VariableValues`, the list loop, the field loop) establishes before the call -/
 theorem validateVarType_good (s : Schema) (hc : InputsClosed s) :
     ∀ (fuel : Nat) (path : Path) (typ : GType) (val : GoVal),
-      InputTypeOK s typ → safeB val = true → (val = .nil → typ.nonNull = false) →
-      GoodPair val (validateVarType s fuel path typ val)
-  | 0, _, _, _, _, _, _ => by simp [validateVarType, GoodPair]
+      InputTypeOK s typ → wfB val = true → (val = .nil → typ.nonNull = false) →
+      GoodVal val (validateVarType s fuel path typ val)
+  | 0, _, _, _, _, _, _ => by simp [validateVarType, GoodVal]
   | fuel + 1, path, typ, val, ht, hs, hn => by
     have ih := validateVarType_good s hc fuel
     cases typ with
     | list e nn p =>
       have hte : InputTypeOK s e := by simpa [InputTypeOK, GType.name] using ht
       by_cases hnil : val.isNil = true
-      · -- the repaired R14a branch: a null where a list is expected is returned as it is
-        simp only [validateVarType, legacyNullIntoListPanics, hnil, Bool.not_false, Bool.and_self, if_true]
-        exact GoodPair_self hs
+      · -- a null where a list is expected is returned as it is
+        simp only [validateVarType, hnil, if_true]
+        exact GoodVal_self hs
       · have hnil' : val.isNil = false := by simpa using hnil
         have hvn : val ≠ .nil := (GoVal.isNil_false_iff val).mp hnil'
-        simp only [validateVarType, hnil', Bool.and_false, Bool.false_eq_true, if_false]
+        simp only [validateVarType, hnil', Bool.false_eq_true, if_false]
         cases val with
         | nil => exact absurd rfl hvn
         | slice t xs =>
           simp only []
-          have hxs : safeItemsB (decide (t = .iface)) xs = true := by simpa [safeB] using hs
+          have hxs : wfItemsB (decide (t = .iface)) xs = true := by simpa [wfB] using hs
           have hl := listLoop_good (fun p x => validateVarType s fuel p e x) path (decide (t = .iface)) e.nonNull
             (fun p x h1 h2 => ih p e x hte h1 h2) xs 0 hxs
           cases hr : listLoop (fun p x => validateVarType s fuel p e x) path (decide (t = .iface)) e.nonNull 0 xs with
           | ok xs' =>
             simp only [hr, GoodItems] at hl
-            have := safeItems_storeElemType (a := xs) (b := xs') hl
-            simp [GoodPair, safeB, this]
-          | err m p a => simp [GoodPair]
+            have := wfItems_storeElemType (a := xs) (b := xs') hl
+            simp [GoodVal, wfB, this]
+          | err m p a => simp [GoodVal]
           | panic m => simp [hr, GoodItems] at hl
-          | outOfFuel => simp [GoodPair]
+          | outOfFuel => simp [GoodVal]
         | _ =>
           simp only [GoVal.type?]
           have hg := ih (path ++ [.idx 0]) e _ hte hs (fun h => absurd h hvn)
           revert hg
           cases validateVarType s fuel (path ++ [.idx 0]) e _ with
-          | ok pr =>
-            obtain ⟨ret, upd⟩ := pr
+          | ok ret =>
             intro hg
-            simp only [GoodPair] at hg
-            have hne := hg.2.2 hvn
-            have h1 := storeElem_good hg.1 hg.2.1
-            have h2 := (GoVal.isNil_false_iff _).mpr (storeElem_ne_nil hne.1 hne.2)
-            simp [GoodPair, safeB, safeItemsB, h1, h2, hg.2.1, hne.2]
-          | err m p a => simp [GoodPair]
-          | panic m => simp [GoodPair]
-          | outOfFuel => simp [GoodPair]
+            simp only [GoodVal] at hg
+            have h2 := (GoVal.isNil_false_iff _).mpr (hg.2 hvn)
+            simp [GoodVal, wfB, wfItemsB, hg.1, h2]
+          | err m p a => simp [GoodVal]
+          | panic m => simp [GoodVal]
+          | outOfFuel => simp [GoodVal]
     | named n nn p =>
       obtain ⟨d, hd, hk⟩ := ht
       simp only [GType.name] at hd
       simp only [validateVarType, hd]
       by_cases hnil : (!nn && val.isNil) = true
       · simp only [hnil, if_true]
-        exact GoodPair_self hs
+        exact GoodVal_self hs
       · simp only [hnil, Bool.false_eq_true, if_false]
         have hvn : val ≠ .nil := by
           intro h
@@ -283,49 +250,47 @@ theorem validateVarType_good (s : Schema) (hc : InputsClosed s) :
         rcases hk with hk | hk | hk
         · -- scalar
           simp only [hk, hty]
-          split <;> first | exact GoodPair_self hs | simp [GoodPair]
+          split <;> first | exact GoodVal_self hs | simp [GoodVal]
         · -- enum
           simp only [hk, hty]
           split
-          · simp [GoodPair]
-          · split <;> first | exact GoodPair_self hs | simp [GoodPair]
+          · simp [GoodVal]
+          · split <;> first | exact GoodVal_self hs | simp [GoodVal]
         · -- input object
           simp only [hk]
           cases val with
           | map elem kvs =>
             simp only []
-            have hs' : elem = .iface ∧ safeFieldsB kvs = true := by simpa [safeB] using hs
-            obtain ⟨he, hkvs⟩ := hs'
-            subst he
+            have hkvs : wfFieldsB (decide (elem = .iface)) kvs = true := by simpa [wfB] using hs
             split
-            · simp [GoodPair]
+            · simp [GoodVal]
             · have hl := fieldLoop_good s (fun p t x => validateVarType s fuel p t x) path
-                (fun p t x h0 h1 h2 => ih p t x h0 h1 (fun h => absurd h h2)) d.fields kvs (hc n d hd hk) hkvs
+                (fun p t x h0 h1 h2 => ih p t x h0 h1 (fun h => absurd h h2)) d.fields elem kvs (hc n d hd hk) hkvs
               revert hl
-              cases fieldLoop (fun p t x => validateVarType s fuel p t x) path .iface d.fields kvs with
-              | ok kvs' => intro hl; simp only [GoodFields] at hl; simp [GoodPair, safeB, hl]
-              | err m p a => simp [GoodPair]
+              cases fieldLoop (fun p t x => validateVarType s fuel p t x) path d.fields elem kvs with
+              | ok pr => obtain ⟨e', kvs'⟩ := pr; intro hl; simp only [GoodFields] at hl; simp [GoodVal, wfB, hl]
+              | err m p a => simp [GoodVal]
               | panic m => simp [GoodFields]
-              | outOfFuel => simp [GoodPair]
-          | _ => simp [GoodPair]
+              | outOfFuel => simp [GoodVal]
+          | _ => simp [GoodVal]
 
 end Gql
 
 namespace Gql
 open Gql.Strconv
 
-/- ---------- converted literals (default values) are safe ---------- -/
+/- ---------- converted literals (default values) are well-formed ---------- -/
 
 mutual
-  theorem vvw_safe (dflt : Name → Option (ConvRes GoVal)) (vars : VarMap)
-      (hv : safeFieldsB vars = true) (hd : ∀ n x, dflt n = some (.ok x) → safeB x = true) :
-      (v : Value) → ∀ x, valueValueWith dflt vars v = .ok x → safeB x = true
+  theorem vvw_wf (dflt : Name → Option (ConvRes GoVal)) (vars : VarMap)
+      (hv : wfFieldsB true vars = true) (hd : ∀ n x, dflt n = some (.ok x) → wfB x = true) :
+      (v : Value) → ∀ x, valueValueWith dflt vars v = .ok x → wfB x = true
     | .mk kind raw ch p, x, h => by
       cases kind
       case «variable» =>
         simp only [valueValueWith] at h
         cases h1 : vars.lookup raw with
-        | some y => simp only [h1] at h; cases h; exact safeFields_lookup vars raw _ hv h1
+        | some y => simp only [h1] at h; cases h; exact (wfFields_lookup true vars raw _ hv h1).1
         | none =>
           simp only [h1] at h
           cases h2 : dflt raw with
@@ -343,7 +308,7 @@ mutual
         cases hl : listValueWith dflt vars ch with
         | ok xs =>
           simp only [hl] at h; cases h
-          simpa [safeB] using lvw_safe dflt vars hv hd ch xs hl
+          simpa [wfB] using lvw_wf dflt vars hv hd ch xs hl
         | err e => simp [hl] at h
         | diverge => simp [hl] at h
       case object =>
@@ -351,13 +316,13 @@ mutual
         cases hl : objectValueWith dflt vars ch .nil with
         | ok kvs =>
           simp only [hl] at h; cases h
-          simpa [safeB] using ovw_safe dflt vars hv hd ch .nil kvs (by simp [safeFieldsB]) hl
+          simpa [wfB] using ovw_wf dflt vars hv hd ch .nil kvs (by simp [wfFieldsB]) hl
         | err e => simp [hl] at h
         | diverge => simp [hl] at h
-  theorem lvw_safe (dflt : Name → Option (ConvRes GoVal)) (vars : VarMap)
-      (hv : safeFieldsB vars = true) (hd : ∀ n x, dflt n = some (.ok x) → safeB x = true) :
-      (c : Children) → ∀ xs, listValueWith dflt vars c = .ok xs → safeItemsB true xs = true
-    | .nil, xs, h => by simp only [listValueWith] at h; cases h; simp [safeItemsB]
+  theorem lvw_wf (dflt : Name → Option (ConvRes GoVal)) (vars : VarMap)
+      (hv : wfFieldsB true vars = true) (hd : ∀ n x, dflt n = some (.ok x) → wfB x = true) :
+      (c : Children) → ∀ xs, listValueWith dflt vars c = .ok xs → wfItemsB true xs = true
+    | .nil, xs, h => by simp only [listValueWith] at h; cases h; simp [wfItemsB]
     | .cons n v p rest, xs, h => by
       simp only [listValueWith] at h
       cases h1 : valueValueWith dflt vars v with
@@ -366,44 +331,44 @@ mutual
         cases h2 : listValueWith dflt vars rest with
         | ok ys =>
           simp only [h2] at h; cases h
-          simp [safeItemsB, vvw_safe dflt vars hv hd v x h1, lvw_safe dflt vars hv hd rest ys h2]
+          simp [wfItemsB, vvw_wf dflt vars hv hd v x h1, lvw_wf dflt vars hv hd rest ys h2]
         | err e => simp [h2] at h
         | diverge => simp [h2] at h
       | err e => simp [h1] at h
       | diverge => simp [h1] at h
-  theorem ovw_safe (dflt : Name → Option (ConvRes GoVal)) (vars : VarMap)
-      (hv : safeFieldsB vars = true) (hd : ∀ n x, dflt n = some (.ok x) → safeB x = true) :
-      (c : Children) → ∀ acc kvs, safeFieldsB acc = true → objectValueWith dflt vars c acc = .ok kvs → safeFieldsB kvs = true
+  theorem ovw_wf (dflt : Name → Option (ConvRes GoVal)) (vars : VarMap)
+      (hv : wfFieldsB true vars = true) (hd : ∀ n x, dflt n = some (.ok x) → wfB x = true) :
+      (c : Children) → ∀ acc kvs, wfFieldsB true acc = true → objectValueWith dflt vars c acc = .ok kvs → wfFieldsB true kvs = true
     | .nil, acc, kvs, ha, h => by simp only [objectValueWith] at h; cases h; exact ha
     | .cons n v p rest, acc, kvs, ha, h => by
       simp only [objectValueWith] at h
       cases h1 : valueValueWith dflt vars v with
       | ok x =>
         simp only [h1] at h
-        exact ovw_safe dflt vars hv hd rest (acc.set n x) kvs
-          (safeFields_set acc n x ha (vvw_safe dflt vars hv hd v x h1)) h
+        exact ovw_wf dflt vars hv hd rest (acc.set n x) kvs
+          (wfFields_set true acc n x ha (vvw_wf dflt vars hv hd v x h1) rfl) h
       | err e => simp [h1] at h
       | diverge => simp [h1] at h
 end
 
-/-- every converted constant literal (a default value) is safe: literal conversion only builds
+/-- every converted constant literal (a default value) is well-formed: literal conversion only builds
     `[]interface{}` / `map[string]interface{}` containers -/
-theorem valueValueConst_safe (dv : Value) (x : GoVal) (h : valueValueConst dv = .ok x) : safeB x = true := by
+theorem valueValueConst_wf (dv : Value) (x : GoVal) (h : valueValueConst dv = .ok x) : wfB x = true := by
   unfold valueValueConst valueValue at h
   simp only [List.length_nil, valueValueLvl] at h
-  exact vvw_safe _ .nil (by simp [safeFieldsB]) (by intro n x h; simp [findVarDef] at h) dv x h
+  exact vvw_wf _ .nil (by simp [wfFieldsB]) (by intro n x h; simp [findVarDef] at h) dv x h
 
-theorem jsonNumberPre_good {typ : GType} {val rv : GoVal} (hs : safeB val = true) (hn : val ≠ .nil)
-    (h : jsonNumberPre typ val = .ok rv) : safeB rv = true ∧ rv ≠ .nil := by
+theorem jsonNumberPre_good {typ : GType} {val rv : GoVal} (hs : wfB val = true) (hn : val ≠ .nil)
+    (h : jsonNumberPre typ val = .ok rv) : wfB rv = true ∧ rv ≠ .nil := by
   unfold jsonNumberPre at h
   cases val with
   | jsonNumber t =>
     simp only [] at h
     split at h
-    · split at h <;> first | (cases h; simp [safeB]) | simp at h
+    · split at h <;> first | (cases h; simp [wfB]) | simp at h
     · split at h
-      · split at h <;> first | (cases h; simp [safeB]) | simp at h
-      · cases h; simp [safeB]
+      · split at h <;> first | (cases h; simp [wfB]) | simp at h
+      · cases h; simp [wfB]
   | nil => exact absurd rfl hn
   | _ => simp only [] at h; cases h; exact ⟨hs, hn⟩
 
@@ -416,7 +381,7 @@ theorem isInputType_kind {d : Definition} (h : d.isInputType = true) :
   simpa [Definition.isInputType, or_assoc] using h
 
 theorem coerceSupplied_noPanic (s : Schema) (op : OperationDef) (v : VarDef) (coerced : GoFields) (val : GoVal)
-    (hc : InputsClosed s) (hty : InputTypeOK s v.type) (hs : safeB val = true) :
+    (hc : InputsClosed s) (hty : InputTypeOK s v.type) (hs : wfB val = true) :
     NoPanic (coerceSupplied s op v coerced val) := by
   unfold coerceSupplied
   by_cases hn : val.isNil = true
@@ -431,21 +396,20 @@ theorem coerceSupplied_noPanic (s : Schema) (op : OperationDef) (v : VarDef) (co
       revert hg
       simp only []
       cases validateVarType s (fuelFor s op rv) (varPath v) v.type rv with
-      | ok pr =>
-        obtain ⟨rval, upd⟩ := pr
+      | ok rval =>
         intro hg
-        simp only [GoodPair] at hg
-        simp [(GoVal.isNil_false_iff rval).mpr (hg.2.2 h2).1, NoPanic]
+        simp only [GoodVal] at hg
+        simp [(GoVal.isNil_false_iff rval).mpr (hg.2 h2), NoPanic]
       | err m p a => simp [NoPanic]
-      | panic m => simp [GoodPair]
+      | panic m => simp [GoodVal]
       | outOfFuel => simp [NoPanic]
 
-theorem suppliedValue_safe {vars : VarMap} {v : VarDef} {x : GoVal}
-    (hvars : safeFieldsB vars = true)
-    (h : suppliedValue vars v = .ok (some x)) : safeB x = true := by
+theorem suppliedValue_wf {vars : VarMap} {v : VarDef} {x : GoVal}
+    (hvars : wfFieldsB true vars = true)
+    (h : suppliedValue vars v = .ok (some x)) : wfB x = true := by
   unfold suppliedValue at h
   cases hl : vars.lookup v.var with
-  | some y => simp only [hl] at h; cases h; exact safeFields_lookup vars v.var _ hvars hl
+  | some y => simp only [hl] at h; cases h; exact (wfFields_lookup true vars v.var _ hvars hl).1
   | none =>
     simp only [hl] at h
     cases hdv : v.default with
@@ -453,7 +417,7 @@ theorem suppliedValue_safe {vars : VarMap} {v : VarDef} {x : GoVal}
     | some dv =>
       simp only [hdv] at h
       cases hvv : valueValueConst dv with
-      | ok y => simp only [hvv] at h; cases h; exact valueValueConst_safe dv _ hvv
+      | ok y => simp only [hvv] at h; cases h; exact valueValueConst_wf dv _ hvv
       | err e => simp [hvv] at h
       | diverge => simp [hvv] at h
 
@@ -464,7 +428,7 @@ theorem suppliedValue_noPanic (vars : VarMap) (v : VarDef) : NoPanic (suppliedVa
 
 theorem coerceVar_noPanic (s : Schema) (op : OperationDef) (vars : VarMap) (v : VarDef) (coerced : GoFields)
     (hc : InputsClosed s) (hop : ∃ d, s.type? v.type.name = some d)
-    (hvars : safeFieldsB vars = true) :
+    (hvars : wfFieldsB true vars = true) :
     NoPanic (coerceVar s op vars v coerced) := by
   obtain ⟨d, hd⟩ := hop
   unfold coerceVar
@@ -477,14 +441,14 @@ theorem coerceVar_noPanic (s : Schema) (op : OperationDef) (vars : VarMap) (v : 
     | ok o =>
       cases o with
       | none => simp [NoPanic]
-      | some x => exact coerceSupplied_noPanic s op v coerced x hc hty (suppliedValue_safe hvars hsv)
+      | some x => exact coerceSupplied_noPanic s op v coerced x hc hty (suppliedValue_wf hvars hsv)
     | err m p a => simp [NoPanic]
     | panic m => simp [hsv, NoPanic] at hsp
     | outOfFuel => simp [NoPanic]
   · simp [hin, NoPanic]
 
 theorem coerceLoop_noPanic (s : Schema) (op : OperationDef) (vars : VarMap)
-    (hc : InputsClosed s) (hvars : safeFieldsB vars = true) :
+    (hc : InputsClosed s) (hvars : wfFieldsB true vars = true) :
     ∀ (vs : List VarDef) (coerced : GoFields),
       (∀ v ∈ vs, ∃ d, s.type? v.type.name = some d) →
       NoPanic (coerceLoop s op vars vs coerced)
